@@ -8,6 +8,7 @@
   All theorems quantify over *every* observation stream (any errors, residuals, NaNs) and every length.
 -/
 import PPV.Model.Newton
+import PPV.Gen.Wiring
 import Mathlib.Tactic.SplitIfs
 import Mathlib.Tactic.Cases
 import Mathlib.Tactic.Linarith
@@ -151,6 +152,55 @@ theorem converged_with_partial_restore_witness :
     r.converged = true ∧ r.trace.getLast? = some (1, 1, [false, true], true) := by decide +kernel
 
 /-! ### run level: return ⇔ every stage converged; a failed run leaves nothing behind -/
+
+/-! ### which option bounds which solver variable (generated from the stage functions of pipeflow.py) -/
+
+/-- the tolerance option that belongs to a solver variable by its physical dimension: mass flows (also the slack
+    mass flows) `tol_m`, pressures `tol_p`, temperatures `tol_T` -/
+def tolOptionOf (var : String) : String :=
+  if var = "mdot" ∨ var = "mdotslack" then "tol_m" else if var = "p" then "tol_p" else "tol_T"
+
+/-- in every solver stage each variable's change is tested against the tolerance option of its own dimension
+    (decided over the wiring read from the current `hydraulics / heat_transfer / bidirectional`) -/
+theorem stage_tolerances_paired :
+    ∀ st ∈ PPV.Gen.Wiring.stages, ∀ vt ∈ st.2.1, vt.2 = tolOptionOf vt.1 := by decide
+
+/-- the stages solve for the documented variables and are limited by their own iteration option -/
+theorem stage_variables_and_limits :
+    PPV.Gen.Wiring.stages.map (fun st => (st.1, st.2.1.map Prod.fst, st.2.2)) =
+      [("bidirectional", ["mdot", "p", "TOUT", "T"], "max_iter_bidirect"),
+       ("hydraulics", ["mdot", "p", "mdotslack"], "max_iter_hyd"),
+       ("heat_transfer", ["Tout", "T"], "max_iter_therm")] := by decide
+
+/-- configuration of a stage's Newton loop for given option values -/
+def stageCfg (opt : String → XR) (maxIter : Nat) (automatic : Bool) (pairs : List (String × String)) : Cfg :=
+  { maxIter := maxIter, automatic := automatic, tols := pairs.map (fun vt => opt vt.2), tolRes := opt "tol_res" }
+
+/-- **a converged stage meets the tolerances in force, by name**: if a stage's loop ends converged, then the last
+    change of every solver variable is a number not exceeding the value of the option of its own dimension, and the
+    residual does not exceed `tol_res` -/
+theorem converged_stage_meets_named_tolerances (opt : String → XR) (maxIter : Nat) (automatic : Bool)
+    (st : String × List (String × String) × String) (hst : st ∈ PPV.Gen.Wiring.stages) (obs : List Obs)
+    (h : (runLoop (stageCfg opt maxIter automatic st.2.1) {} obs).converged = true) :
+    ∃ o, (runLoop (stageCfg opt maxIter automatic st.2.1) {} obs).lastObs = some o ∧
+      (∀ p ∈ List.zip o.errs (st.2.1.map Prod.fst), ∃ x y : Rat, p.1 = .val x ∧ opt (tolOptionOf p.2) = .val y ∧ x ≤ y) ∧
+      XR.le o.resid (opt "tol_res") = true := by
+  obtain ⟨o, ho, hacc⟩ := loop_converged_sound_partial _ obs h
+  refine ⟨o, ho, ?_, ?_⟩
+  · intro p hp
+    obtain ⟨i, hi, rfl⟩ := List.mem_iff_getElem.1 hp
+    simp only [List.length_zip, List.length_map] at hi
+    have hmem : (o.errs[i]'(by omega), opt (st.2.1[i]'(by omega)).2) ∈ List.zip o.errs (stageCfg opt maxIter automatic st.2.1).tols := by
+      unfold stageCfg
+      rw [List.mem_iff_getElem]
+      refine ⟨i, by simp; omega, by simp⟩
+    obtain ⟨x, y, hx, hy, hxy⟩ := hacc.1.1 _ hmem
+    refine ⟨x, y, by simpa using hx, ?_, hxy⟩
+    have hpair := stage_tolerances_paired st hst (st.2.1[i]'(by omega)) (List.getElem_mem _)
+    simp only [List.getElem_zip, List.getElem_map]
+    rw [← hpair]; exact hy
+  · exact (XR.le_spec _ _).2 hacc.1.2
+
 
 theorem go_spec (stages : List StageOutcome) (c : Bool) :
     ((pipeflowRun.go stages c).2 = .returned ↔ ∀ st ∈ stages, st = .converged) ∧
